@@ -20,6 +20,9 @@ for name in sorted(n for n in os.listdir("/verif/seeded") if os.path.isdir(f"/ve
     caught = [f"{p} ({v['secs']:.0f} s)" for p, v in r.get("checks", {}).items() if v["caught"]]
     missed = [p for p, v in r.get("checks", {}).items() if not v["caught"]]
     cell = ", ".join(caught) if caught else "**not caught**"
+    if meta.get("superseded_by_fix"):
+        cell = f"superseded: fix `{meta['superseded_by_fix']}` removed the defect class, the change is harmless on (and does not apply to) the final tree"
+        caught = ["superseded"]
     if missed and caught:
         cell += "; not by " + ", ".join(missed)
     ok = r.get("demo_passes_without_change") and r.get("suite_passes_with_change") and r.get("demo_fails_with_change")
